@@ -178,6 +178,13 @@ class _Pool:
 
 
 _POOL = _Pool()
+HANG_S = 15.0          # a single schedule takes milliseconds
+
+
+def _abandon_pool() -> None:
+    """leave the (daemon) threads of the current pool behind and start with fresh ones"""
+    global _POOL
+    _POOL = _Pool()
 
 
 @dataclass
@@ -188,6 +195,7 @@ class RunResult:
     deadlock: bool = False
     overrun: bool = False                  # step bound hit
     pruned: bool = False                   # abandoned by the chooser (sleep-set blocked): not a complete run
+    hung: bool = False                     # a worker blocked outside the scheduler's control (reported as deadlock)
     stuck: list[int] = field(default_factory=list)     # unfinished threads at a deadlock
     errors: list[str] = field(default_factory=list)    # unexpected exceptions in workers
     events: list[list[tuple]] = field(default_factory=list)
@@ -360,7 +368,12 @@ class Scheduler:
             self.main.release()
         else:
             self.sems[first].release()
-        self.main.acquire()
+        hung = not self.main.acquire(timeout=HANG_S)
+        if hung:
+            # a worker is blocked on something the scheduler does not control (e.g. the code under test swapped
+            # the cooperative lock for a real `threading.Lock` and now waits on it): nothing can be scheduled
+            # any more — for the program under test that is a deadlock
+            self.outcome = "deadlock"
         res = RunResult(self.trace, self.choices, results, events=self.events, ctx=ctx)
         if self.outcome == "deadlock":
             res.deadlock = True
@@ -375,8 +388,12 @@ class Scheduler:
             self.aborting = True
             for t in range(n):
                 _open(self.sems[t])
-        if not _POOL.wait(n):
+        if hung:
+            res.hung = True
+            _abandon_pool()            # its stuck thread can never be reused
+        elif not _POOL.wait(n):
             errors.append("a worker did not terminate")
+            _abandon_pool()
         _CURRENT[0] = None
         res.errors = errors
         return res
